@@ -275,10 +275,37 @@ func registerFmt() {
 	}
 	intrinsics["fmt.Sprint"] = sprint(false, false)
 	intrinsics["fmt.Sprintln"] = sprint(true, true)
-	for _, n := range []string{"fmt.Printf", "fmt.Println", "fmt.Print", "fmt.Fprintf", "fmt.Fprintln", "fmt.Fprint"} {
+	for _, n := range []string{"fmt.Printf", "fmt.Println", "fmt.Print"} {
 		intrinsics[n] = func(i *Interp, fr *frame, fn *ssa.Function, args []value) value {
 			return tuple{i.mkInt(0), iface{}}
 		}
+	}
+	fwrite := func(i *Interp, fr *frame, w iface, s Str) value {
+		if w.t == nil {
+			i.targetPanicStr("runtime error: invalid memory address or nil pointer dereference")
+		}
+		if strings.HasSuffix(w.t.String(), "os.File") {
+			return tuple{i.mkInt(int64(s.Len())), iface{}} // console output is dropped
+		}
+		if s.opaque {
+			i.abort(stInconclusive, "formatted symbolic value written to an io.Writer")
+		}
+		b := i.conv(i.byteSliceType(), types.Typ[types.String], s)
+		r, ok := i.callMethod(w, "Write", b)
+		if !ok {
+			i.abort(stInconclusive, "fmt.Fprint* to a writer without Write")
+		}
+		return r
+	}
+	intrinsics["fmt.Fprintf"] = func(i *Interp, fr *frame, fn *ssa.Function, args []value) value {
+		s, _ := i.sprintf(args[1].(Str), args[2].([]value))
+		return fwrite(i, fr, args[0].(iface), s)
+	}
+	intrinsics["fmt.Fprint"] = func(i *Interp, fr *frame, fn *ssa.Function, args []value) value {
+		return fwrite(i, fr, args[0].(iface), sprint(false, false)(i, fr, fn, args[1:]).(Str))
+	}
+	intrinsics["fmt.Fprintln"] = func(i *Interp, fr *frame, fn *ssa.Function, args []value) value {
+		return fwrite(i, fr, args[0].(iface), sprint(true, true)(i, fr, fn, args[1:]).(Str))
 	}
 }
 
@@ -348,6 +375,22 @@ func (i *Interp) formatArg(verb byte, spec string, a iface) Str {
 	}
 	if _, isP := a.v.(poison); isP {
 		return Str{opaque: true}
+	}
+	// fmt prints the value a reflect.Value holds
+	if nt, ok := a.t.(*types.Named); ok && nt.Obj().Pkg() != nil && nt.Obj().Pkg().Path() == "reflect" && nt.Obj().Name() == "Value" {
+		b := i.rvOf(a.v)
+		if b == nil {
+			return Str{s: "<invalid reflect.Value>"}
+		}
+		if b.fn != nil {
+			return Str{opaque: true}
+		}
+		if _, isI := b.t.Underlying().(*types.Interface); isI {
+			if x, ok := b.v.(iface); ok {
+				return i.formatArg(verb, spec, x)
+			}
+		}
+		return i.formatArg(verb, spec, iface{t: b.t, v: b.v})
 	}
 	// error / Stringer
 	if verb == 'v' || verb == 's' || verb == 'q' {
